@@ -192,3 +192,32 @@ impl<T, const CAPACITY: usize> FromIterator<T> for Bucket<T, CAPACITY> {
         Self(Vec::from_iter(iter.into_iter().take(CAPACITY)))
     }
 }
+
+/// Verification hook: the injector queue on its own, with `u64` tasks and
+/// buckets of 3 tasks.
+#[cfg(nexosim_verif)]
+pub mod verif {
+    use super::{Bucket, Injector};
+
+    pub struct VInjector(Injector<u64, 3>);
+
+    impl VInjector {
+        #[allow(clippy::new_without_default)]
+        pub fn new() -> Self {
+            Self(Injector::new())
+        }
+        pub fn insert_task(&self, task: u64) {
+            self.0.insert_task(task)
+        }
+        /// Pushes a bucket made of the provided tasks (at most 3 are taken).
+        pub fn push_bucket(&self, tasks: &[u64]) {
+            self.0.push_bucket(Bucket::from_iter(tasks.iter().copied()))
+        }
+        pub fn pop_bucket(&self) -> Option<Vec<u64>> {
+            self.0.pop_bucket().map(|b| b.into_iter().collect())
+        }
+        pub fn is_empty(&self) -> bool {
+            self.0.is_empty()
+        }
+    }
+}
